@@ -229,6 +229,15 @@ Proof.
         exists j. repeat split; auto; try discriminate; try lia.
 Qed.
 
+Lemma LInv_sync l lo hi B : LInv l lo hi B -> LInv (ld_sync l) lo hi B.
+Proof.
+  intros H lost l' E Hu. destruct lost as [|w lost0].
+  - simpl in E. subst l'. destruct (H [] l eq_refl (Forall_nil _)) as (j & Hj & He & Hlo & Hk).
+    exists j. repeat split; auto. intros k. rewrite recover_sync. apply Hk.
+  - exfalso. pose proof (all_synced_sync l) as Ha. rewrite E in Ha. simpl in Ha.
+    apply Forall_inv in Ha. apply Forall_inv in Hu. unfold unsynced in Hu. congruence.
+Qed.
+
 (** invariant of a state between two operations, after the history [ops] *)
 Definition BInv (ops : list op2) (s : cst) : Prop :=
   c_sync s = sync /\ c_max s = max /\ batch_ok (c_batch s)
@@ -264,6 +273,21 @@ Qed.
 Lemma BInv_Good ops s : BInv ops s -> Good ops (nflush max ops) (nflush max ops) s.
 Proof.
   intros (Hs & _ & _ & H1 & H2 & _ & _ & HL & _). unfold Good. rewrite H1, H2. repeat split; auto.
+Qed.
+
+Lemma BInv_sync_log ops s : BInv ops s -> BInv ops (sync_log s).
+Proof.
+  intros (H1 & H2 & H3 & H4 & H5 & H6 & H7 & H8 & H9).
+  apply mk_BInv; cbn [sync_log c_sync c_max c_batch c_started c_completed c_size c_log]; auto.
+  - intros _. apply all_synced_sync.
+  - apply LInv_sync. exact H8.
+  - intros k. rewrite recover_sync. apply H9.
+Qed.
+
+Lemma Good_sync_log ops lo hi s : Good ops lo hi s -> Good ops lo hi (sync_log s).
+Proof.
+  intros (H1 & H2 & H3 & H4 & H5). unfold Good. cbn [sync_log c_sync c_started c_completed c_log].
+  repeat split; auto. apply LInv_sync. exact H5.
 Qed.
 
 (** a state inside operation [o] whose log and counters are still those of the state before it *)
@@ -451,9 +475,11 @@ Proof.
     split.
     + apply Forall_cons; [exact Ga|]. apply Forall_cons; [exact Gb|]. apply Forall_cons; [exact Gc|].
       apply Forall_cons; [|apply Forall_nil].
+      unfold reopen. apply Good_sync_log.
       destruct Gc as (Gs & Gc1 & Gc2 & Gc3 & GL). unfold Good.
       cbn [reset_batch with_size with_batch c_sync c_started c_completed c_log]. repeat split; auto.
-    + cbn [last]. apply BInv_after_flush; auto; rewrite ?C1, ?C2, ?C3, ?C4, ?C5; auto.
+    + cbn [last]. unfold reopen. apply BInv_sync_log.
+      apply BInv_after_flush; auto; rewrite ?C1, ?C2, ?C3, ?C4, ?C5; auto.
 Qed.
 
 (** the state reached by any history, from a freshly opened persister over a synced log [l0] *)
@@ -678,9 +704,9 @@ Proof.
   Local Opaque ld_write_start ld_write_done recover apply_log batch_put batch_delete.
   unfold c_step, to_pers.
   destruct o as [[k v|k|k|k|]|]; destruct (c_kind s) eqn:Ek;
-    unfold op_trace, update_trace, flush_trace, cycle_trace, p_step2, p_step, p_cycle, p_put, p_remove, p_tick, p_close,
+    unfold op_trace, update_trace, flush_trace, cycle_trace, reopen, sync_log, p_step2, p_step, p_cycle, p_put, p_remove, p_tick, p_close,
       p_reopen, b_put, b_remove, b_tick, b_close, b_reopen, db_put, db_remove, db_tick, db_close, db_reopen, sdb_put,
       sdb_remove, sdb_tick, sdb_close, sdb_reopen, db_update_batch_with_increment, sdb_update_batch_with_increment,
       db_put_batch, sdb_put_batch, new_db, new_sdb;
-    simpl; rewrite ?Ek; try (destruct (c_size s + 1 <? c_max s)); simpl; rewrite ?Ek, ?recover_flush; reflexivity.
+    simpl; rewrite ?Ek; try (destruct (c_size s + 1 <? c_max s)); simpl; rewrite ?Ek, ?recover_sync, ?recover_flush; reflexivity.
 Qed.
